@@ -31,3 +31,22 @@ pub open spec fn tsz(es: Seq<(Seq<u8>, int)>) -> nat
         (tsz(es.drop_last()) + es.last().0.len() - lcp(prev, es.last().0)) as nat
     }
 }
+/// below node `a` some key carries no output at all: what the values below a node have in common sits on the transition that
+/// leads to it (C16: get_key's greedy descent relies on it)
+pub open spec fn tightg(g: G, a: nat) -> bool
+    decreases a, 1int, 0int
+    when gwf(g) && (a == 0 || g.dom().contains(a))
+{
+    let n = gnode(g, a);
+    (n.is_final && n.fo == 0) || tight_tr(g, a, n.trans, 0)
+}
+pub open spec fn tight_tr(g: G, bound: nat, trans: Seq<BT>, i: int) -> bool
+    decreases bound, 0int, trans.len() - i
+    when gwf(g) && i >= 0 && targets_ok(g, trans, bound)
+{
+    if i >= trans.len() { false } else { (trans[i].out == 0 && tightg(g, trans[i].addr)) || tight_tr(g, bound, trans, i + 1) }
+}
+/// every emitted node but the root is tight
+pub open spec fn gtight_but(g: G, root: nat) -> bool { forall|a: nat| g.dom().contains(a) && a != root ==> #[trigger] tightg(g, a) }
+/// values strictly increase along a listing
+pub open spec fn vmono(l: Seq<(Seq<u8>, int)>) -> bool { forall|i: int, j: int| 0 <= i < j < l.len() ==> (#[trigger] l[i]).1 < (#[trigger] l[j]).1 }
